@@ -1,7 +1,7 @@
 """Property id -> check function."""
 import json
 from common import *
-import checks_txn, checks_cache, checks_pure, txnfam, findings
+import checks_txn, checks_cache, checks_pure, checks_sess, checks_gates, txnfam, findings
 
 
 def replay_txn(prop, path):
@@ -46,3 +46,21 @@ CHECKS["C10"] = checks_pure.run_c10
 CHECKS["C11"] = checks_pure.run_c11
 REPLAY["C10"] = replay_generic
 REPLAY["C11"] = replay_generic
+
+
+def replay_c01(prop, path):
+    r = json.load(open(path))
+    vh = build_vh()
+    case = r["case"]
+    fn = checks_gates.confirm_schedule(vh) if "schedule" in case else checks_sess.confirm_session(vh)
+    got, _ = fn(case)
+    if got:
+        print("VIOLATION property=%s replay=%s" % (prop, path))
+        print("  " + json.dumps(got[0])[:600])
+        return 1
+    print("replay: the recorded mismatch does not occur on this tree")
+    return 0
+
+
+CHECKS["C01"] = checks_sess.run_c01
+REPLAY["C01"] = replay_c01
